@@ -127,6 +127,8 @@ def make_cfg(seed, prop, tier):
     if prof.get("tenant") and rng2.random() < 0.6:
         cfg["tenant_p"] = rng2.choice([0.08, 0.15, 0.25])
         cfg["tenant_doc"] = gen.rand_doc(rng2, schemas.twin(schema_name), maxdepth=rng2.choice([3, 3, 4])).to_json()
+    # size knob of the C08 mix: one run in twenty also handles one very long document
+    cfg["bigdoc"] = bool(prop == "C08" and rng2.random() < 0.05)
     # faults stop for the last quarter of virtual activity: convergence is then a diagnostic
     cfg["quiet_after_events"] = int(max_events * 0.75)
     return cfg
